@@ -321,6 +321,10 @@ def run(ctx):
     ctx.clause("C13.2 both <-> parquet.thrift frozen table; required fields unconditional")
     ctx.clause("C13.3 compact-protocol header state/short-long forms/zigzag; struct begin/end balance")
     ctx.clause("C13.4 unknown fields skipped; thrift_skip exhaustive over wire types")
+    ctx.clause("C13.5 the LogicalType union: field id <-> logical type id tables of parser and writer equal the specification's")
+    from ..rules import logicaltype
+    nlt = logicaltype.check(ctx)
+    ctx.floor("C13 logical type table rows", nlt, 30)
 
     # the struct-level writer/parser functions are compared pairwise; every other static helper of the
     # file (a field helper, a nested-struct helper) is expanded into its callers first
